@@ -1312,6 +1312,15 @@ class Canon(ast.NodeTransformer):
                 return ast.copy_location(ast.Constant(value=isinstance(node.ops[0], ast.IsNot)), node)
         return node
 
+    def visit_Try(self, node):
+        self.generic_visit(node)
+        # try: A  except E: H (always leaves)  else: B      ==>   try: A  except E: H ;  B
+        if node.orelse and not node.finalbody and node.handlers and all(always_exits(h.body) for h in node.handlers):
+            rest = node.orelse
+            node.orelse = []
+            return [node] + rest
+        return node
+
     def visit_With(self, node):
         self.generic_visit(node)
         if len(node.items) == 1 and node.items[0].optional_vars is None:
